@@ -261,8 +261,20 @@ def check_alias_short_indep(cx, facts, rep):
             names = set([g.flag_set, g.reset_flag] + [n for n, _, _ in g.sets])
             own[tuple(g.names)] = names - {None}
         allnames = set().union(*own.values()) if own else set()
+        shared = {}
+        for k_, v_ in own.items():
+            for nme in v_:
+                shared.setdefault(nme, []).append(k_)
         for g in m.params:
-            others = allnames - own[tuple(g.names)]
+            # a state variable two arms both test / set belongs to neither exclusively
+            mine = set(n for n in own[tuple(g.names)] if len(shared[n]) == 1)
+            dup = sorted(n for n in own[tuple(g.names)] if len(shared[n]) > 1)
+            others = allnames - mine
+            if dup:
+                rep.bad('INDEP', where, 'arm=%s' % '|'.join(g.names),
+                        'the arm of `%s` tests or sets %s, which the arm of another parameter also uses as its state: which of the two is accepted depends on their order' % (g.names[0], dup),
+                        f.file, g.line)
+                continue
             evs = [e for e in m.fw.events if any(c.get('id') == g.entry_id and (g.idx is None or c.get('idx') == g.idx) and (g.pol is None or c.get('pol') == g.pol) and not c.get('prior') for c in e.ctx)]
             bad = set()
             for e in evs:
@@ -360,3 +372,22 @@ def run(cx, tier='quick'):
     rep.assumptions += ['two accepted spellings that reach the same helper arm denote the same syn value (LitInt, Ident, Path parsing is syn\'s)']
     rep.not_decided += ['token-for-token identity of whole expansions (implied by identical attribute records, not re-checked per input)']
     return rep
+
+
+def include_merge(cx, rep):
+    """the type-level registration (lib.rs) visits every meta of every #[educe(..)] attribute: a loop left early drops the requests
+    that follow (further `Into(T)` targets, other traits)"""
+    from ..facts import Facts as _F2
+    from ..report import Report as _R2
+    sub = _R2(rep.prop)
+    check_merge(cx, _F2(cx), sub)
+    for fnd in sub.findings:
+        if fnd.rule == 'MERGE' and not any(x.key == fnd.key for x in rep.findings):
+            rep.findings.append(fnd)
+    for r_, i_, v_ in sub.checked:
+        if r_ == 'MERGE':
+            rep.checked.append((r_, i_, v_))
+            rep.counts[r_] = rep.counts.get(r_, 0) + 1
+    for b in sub.broken:
+        if b not in rep.broken and 'floor' not in b:
+            rep.broken.append(b)
